@@ -3,13 +3,17 @@ from .common import *
 from .manifest_data import NOTE_COMMON
 
 CLAIM = {
-  "technique": "Coq theorems on the encoder model (induction over the message list: running size/CRC = totals; header/CRC write-back; CRC sweep 65536 states for header-own-CRC) + "
-               "an independent boolean specification of the wire format (Model/Wire.v) evaluated inside Coq on the implementation's bytes; encoder model tied byte-exactly by "
-               "differential execution",
-  "text": "Partial proof. Proved for every accepted input and option set: a sequence is header ++ records ++ CRC(records), the header's data size is the record length, the header "
-          "CRC is correct for 14-byte headers, the values written back equal the wire, and CRC(header ++ records) = CRC(records) when the header carries its own CRC. Refuted for "
-          "12-byte headers (records-only CRC; known finding legacy_header_file_crc, witness in Props/C02.v). The record-grammar clause (live definition, sizes add up, nothing "
-          "between sequences) is decided on every run by wf_stream_b on the Go bytes plus decoder.CheckIntegrity, not yet by a theorem.",
+  "technique": "Coq theorems on the encoder model: induction over the message list with the invariant 'LRU slot i holds definition d => the record grammar's length for local "
+               "number i is the one d announces' (hit / free slot / eviction; header-byte arithmetic by complete sweeps), running size/CRC = totals, header/CRC write-back, "
+               "CRC sweep of the 65536 states for header-own-CRC; the independent boolean specification of the wire format (Model/Wire.v) is the statement's right-hand side and "
+               "is also evaluated inside Coq on the implementation's bytes; encoder model tied byte-exactly by differential execution",
+  "text": "Proved for every accepted input and option set with a 14-byte header (C02_wf): the output is a well-formed sequence of the independent specification -- header with "
+          "tag, data size = length of the records, correct header CRC; every definition record as long as its counts announce; every data record preceded by a live definition "
+          "for its local number (normal and compressed-timestamp headers) whose sizes add up to the record's length, also after evictions from the LRU; records covering exactly "
+          "the data size; file CRC over the sequence from its first byte. Also: running size/CRC, values written back equal the wire. Hypotheses: output is a byte string and "
+          "shorter than 4 GiB. Refuted for 12-byte headers (records-only CRC; known finding legacy_header_file_crc, witness in Props/C02.v). 'Nothing between chained sequences' "
+          "and the agreement of the Go encoder with the model are decided on every run (byte-exact correspondence, wf_stream_b on the Go bytes, decoder.CheckIntegrity, and the "
+          "writer-kind oracle of C09 for destinations other than a plain writer).",
   "note": NOTE_COMMON + " Model/Wire.v is written from the protocol text and shares no definition with Encoder.v/Decoder.v."}
 
 
